@@ -46,6 +46,9 @@ type c7Case struct {
 	// Nested: a second module lives in the directory znested/ of the main module, its path lies below the main module's path,
 	// and the first package imports its package: it is another module and must not be touched
 	Nested bool `json:"nested,omitempty"`
+	// Workspace: a go.work file in the module root makes the module zwork/ (path example.org/worklib) a second workspace module; the
+	// first package imports its package. It is a main module for the go command, yet another module: it must not be touched
+	Workspace bool `json:"workspace,omitempty"`
 }
 
 var c7GenNames = []string{"g", "gen", "deep", "deepcopy", "a", "ab", "x1", "doc"}
@@ -129,6 +132,21 @@ func genC07(t *rapid.T) c7Case {
 			modspec.File{Name: "znested/pkg/" + c.Base + ".old.go", Data: "package pkg\n\nvar _stale_in_nested = 0\n"})
 		first := &c.Mod.Pkgs[0]
 		first.Other = append(first.Other, modspec.File{Name: "znesteddep.go", Data: "package " + first.Name + "\n\nimport _ \"" + np + "/pkg\"\n"})
+	}
+	if !c.Nested && rapid.IntRange(0, 3).Draw(t, "workspace") == 0 {
+		c.Workspace = true
+		wgomod := "module example.org/worklib\n"
+		if c.Mod.Go != "" {
+			wgomod += "\ngo " + c.Mod.Go + "\n"
+		}
+		c.Mod.Extra = append(c.Mod.Extra,
+			modspec.File{Name: "go.work", Data: "go 1.24.2\n\nuse (\n\t.\n\t./zwork\n)\n"},
+			modspec.File{Name: "zwork/go.mod", Data: wgomod},
+			modspec.File{Name: "zwork/lib/l.go", Data: "package lib\n\ntype Work struct{ A int }\n"},
+			modspec.File{Name: "zwork/lib/" + c.Base + ".old.go", Data: "package lib\n\nvar _stale_in_workspace_module = 0\n"},
+			modspec.File{Name: "zwork/lib/" + c.Base + ".g.go", Data: "package lib\n\nvar _generated_by_the_other_module = 0\n"})
+		first := &c.Mod.Pkgs[0]
+		first.Other = append(first.Other, modspec.File{Name: "zworkdep.go", Data: "package " + first.Name + "\n\nimport _ \"example.org/worklib/lib\"\n"})
 	}
 	c.Unhashable = rapid.IntRange(0, 4).Draw(t, "unhashable") == 0
 	nruns := rapid.IntRange(1, 3).Draw(t, "nruns")
@@ -219,6 +237,11 @@ func (g c7Gen) script(mc *ModCase) *script.Script {
 func oracleC07(c c7Case) error {
 	dir := tempModule(&c.Mod)
 	defer os.RemoveAll(dir)
+	if c.Workspace {
+		// workspace mode: the go command finds go.work from the working directory (the harness switches workspaces off otherwise)
+		os.Setenv("GOWORK", "")
+		defer os.Setenv("GOWORK", "off")
+	}
 	if c.Unhashable {
 		for i := range c.Mod.Pkgs {
 			if err := os.Symlink("does-not-exist", filepath.Join(dir, filepath.FromSlash(c.Mod.Pkgs[i].Dir), "dangling")); err != nil {
@@ -449,6 +472,9 @@ func c7Features(c c7Case) []string {
 			}
 			if c.Nested {
 				fs["nested-module-below-the-module-path"] = true
+			}
+			if c.Workspace {
+				fs["second-module-of-a-go.work-workspace"] = true
 			}
 			if c.Unhashable {
 				fs["unhashable-package-directories"] = true
